@@ -349,6 +349,28 @@ def structural(ctx):
         r = call(lambda: fsic.BaseLinker({'x': models[1](spec.make()), 'y': models[0](spec.make()), 'z': models[1](spec.make())}).solve(failures='ignore', max_iter=3))
         if r[0] != 'ret' or list(r[1][1]) != [1, 2, 3, 4]:
             ctx.violation('identical-spans-rejected', f'three submodels with identical {spec.kind} spans: expected a linker that solves positions 1..4, got {r}', {'kind': 'same-spans', 'span_kind': spec.kind})
+    # submodel ids that are different objects with the same text (1 and '1', a tuple and its repr): every selected submodel's check
+    # variables count, whichever of them is the slow one
+    Sub, Linker = classes()
+    for k, (ida, idb) in enumerate([(1, '1'), ('1', 1), (('x', 1), "('x', 1)"), ("('x', 1)", ('x', 1)), (None, 'None'), ('None', None), (2.5, '2.5'), ('True', True)]):
+        if not ctx.mine(k):
+            continue
+        for slow_first in (True, False):
+            slow = [('big', 'same'), ('big', 'same'), ('big', 'same')]
+            scripts = (slow, []) if slow_first else ([], slow)
+            models = []
+            for script in scripts:
+                m = Sub(range(4), script=script, tol=0.5, X=1.0)
+                models.append(m)
+            linker = Linker({ida: models[0], idb: models[1]}, lscript=[], tol=0.5, Q=1.0)
+            case = {'kind': 'look-alike-ids', 'ids': [repr(ida), repr(idb)], 'slow_first': slow_first}
+            ctx.evaluation(('look-alike-ids', repr(ida), repr(idb), slow_first), nontrivial=True, sample=case)
+            ctx.count('structural_checks')
+            r = call(linker.solve_t, 1, tol=0.5, max_iter=10, failures='ignore')
+            got = (r, str(linker.status[1]), int(linker.iterations[1]), [int(m.iterations[1]) for m in models], [str(m.status[1]) for m in models])
+            if got != (('ret', True), '.', 4, [4, 4], ['.', '.']):
+                ctx.violation('declared-solved-while-moving', f'submodels {ida!r} and {idb!r} ({"first" if slow_first else "second"} one moving by 2.0 > tol on passes 1-3): '
+                              f'expected solved at iteration 4 on the linker and both submodels, got {got}', case)
     # unknown submodel id
     for k, bad in enumerate(['zz', 0, None.__class__, ('a',)]):
         if not ctx.mine(k):
